@@ -50,8 +50,12 @@ def gen_history(rng, files):
             ops.append(('path',))
         elif r < 0.90:
             ops.append(('filepaths-remove', rng.choice(names)))
-        elif r < 0.95:
+        elif r < 0.93:
             ops.append(('other', rng.choice(['name', 'comment', 'private', 'trackers'])))
+        elif r < 0.97:
+            # a listed file changes its size on disk (same paths; the piece length usually stays the same), then the content is looked at again
+            ops.append(('grow', rng.choice(names), rng.choice([1, 100, 3000, 20000])))
+            ops.append(rng.choice([('path',), ('exclude', 'nomatch'), ('same-filters',), ('include', '*f0*')]))
         else:
             ops.append(('same-filters',))
     return ops
@@ -109,6 +113,11 @@ def run_impl(top, ops):
                 if match:
                     did_layout = True
                     t.filepaths.remove(match[0])
+            elif k == 'grow':
+                p = os.path.join(top, op[1])
+                if os.path.exists(p):
+                    with open(p, 'ab') as f:
+                        f.write(b'\x5a' * op[2])
             elif k == 'other':
                 if op[1] == 'name':
                     pass   # renaming changes the layout identity used by verify(); not a hash-relevant change of files
@@ -161,7 +170,7 @@ def run(ck, model_ok):
     ck.rule = ('random attribute histories (5..21 ops) on real trees (3..6 files, 17 B..300 KiB, one sub-directory): path, generate, piece_size (valid, None, '
                'invalid), piece_size_min/max (valid, None, invalid), exclude/include globs appended or re-assigned, files / filepaths removal, unrelated '
                'setters; after EVERY op the oracle checks: hashes present only for the layout and piece length they were generated for, piece length a '
-               'multiple of 16 KiB within min..max, min <= max, size/mode/piece count coherent, and ready => verify(path) succeeds; model compared on '
+               'multiple of 16 KiB within min..max, min <= max, size/mode/piece count coherent, and ready => verify(path) succeeds; a listed file growing on disk followed by a content setter; model compared on '
                '(size, piece length, pieces present, min, max) and outcome class; non-trivial = distinct histories')
     m = Model()
     pend = []
@@ -249,7 +258,7 @@ def run(ck, model_ok):
                 ck.fail('tie', 'calculate_piece_size', {'size': z, 'lo': lo, 'hi': hi}, o2[i], torf.Torrent.calculate_piece_size(z, lo, hi),
                         'model (integer) and implementation (float log2) disagree')
     ck.notes += ['the file layout is abstracted to (identity, total size) in the model; which files a filter selects is C15\'s subject',
-                 'content on disk does not change during a history']
+                 'content on disk changes only through the explicit grow operation (a listed file gets longer)']
 
 
 def replay(rp):
